@@ -263,6 +263,9 @@ func Run(d *fw.Driver, res *fw.Result, seed int64, thorough bool) error {
 	if err := RetryOutage(d, res); err != nil {
 		return err
 	}
+	if err := TrailingSlash(res); err != nil {
+		return err
+	}
 	for rep := 0; rep < reps; rep++ {
 		for _, tr := range []string{"ws", "http"} {
 			for _, ln := range lengths {
